@@ -441,6 +441,12 @@ EDGE_SCRIPTS = [                      # empty setup(), empty loop(), both, nothi
     "from Reduino import target\ntarget(\"COM3\")\n",
     IMP + "x = 1\ny = 2.5\nname = \"n\"\nwhile True:\n    x = x + 1\n",
     IMP + "led = Led(13)\nwhile True:\n    led.toggle()\n    sleep(250)\n",
+    # formerly outside the guard (F-C06-for-over-list, fixed): a for statement over a list - at the top level, in the main
+    # loop, in a function, over a literal; rejected by the transpiler now (an accepted one would not compile: `v` undeclared)
+    IMP + "vals = [1, 2, 3]\ntot = 0\nfor v in vals:\n    tot = tot + v\nwhile True:\n    sleep(tot)\n",
+    IMP + "vals = [1, 2, 3]\ntot = 0\nwhile True:\n    for v in vals:\n        tot = tot + v\n    sleep(100)\n",
+    IMP + "vals = [1, 2, 3]\ndef total():\n    tot = 0\n    for v in vals:\n        tot = tot + v\n    return tot\nwhile True:\n    sleep(total())\n",
+    IMP + "tot = 0\nfor v in [4, 5]:\n    tot = tot + v\nwhile True:\n    sleep(tot)\n",
 ]
 
 
@@ -1167,15 +1173,15 @@ def run(ctx: C.Ctx):
                 "A: escape on special strings + all 1/2-character strings over a 21-symbol boundary alphabet (incl. LF, CR, TAB, NUL, 0x01, 0x1f, DEL, digits) + all 3-character strings over 8 symbols + every code point below 256 alone and in front of 0 7 8 a f backslash quote LF + seeded strings, half printable (ASCII incl. quote/backslash/?, Unicode), half with control characters mixed in (often right before a digit / hex digit / backslash / quote) (model vs _escape_string_literal; the real output lexed by the model lexer must give back the string - for EVERY string; the three escape call sites of _to_c_expr). "
                 "B: C++ literal bodies built from plain characters, simple/octal/hex escapes, trigraph-like sequences, line splices, non-ASCII: model lexer vs the bytes g++ stores; plus the images of the REAL escape (special strings, every code point below 256 followed by the digit 7, a sample of the strings with control characters): g++ must store exactly the UTF-8 bytes of the Python string (oracle). "
                 "C: strings (half of them with control characters; NUL excepted) in 11 script contexts (write, variable, list element, function argument, f-string, concatenation, +=, return value of a helper, arm of a conditional expression, comparison with a second spelling of the literal, text / label arguments of LCD calls) transpiled, compiled, run; the printed lines must be the Python value followed by CR LF as the mock's Serial cuts it into lines (split at LF, one CR before the LF dropped - so a CR directly in front of a LF is the one thing this oracle cannot see; parts A and B can). "
-                "D: 6 edge scripts + 46 boundary scripts (the two shapes the prototypes repair: a function that measures - result returned / in a condition / two sensors / only the function measures / function and loop measure / called by a function above it / sensor declared at the top of the loop - and forward calls - int result, with an argument from a float caller, bare statement, condition, mutual recursion, chain of three, two callers, forward and backward; every device name bound twice with the same arguments / with other pins, hoistable kinds bound before the loop and again at its top; every combination and declaration order of Servo / parallel LCD / I2C LCD incl. a Servo hoisted from the loop head and two objects per class; every helper shape: parameter re-bound to float called with int and float in both orders, two real overloads, calls through annotated wrappers, one signature twice, never called, called from a function only) + seeded structured scripts (c06_gen.gen_script: device kinds forced in rotation before the loop / hoistable kinds at the top of the loop body; every 4th script with 1-3 instances per device kind in shuffled order, both LCD interfaces / only one of them in rotation, a hoistable kind both before and in the loop; every 4th script with helpers whose un-annotated parameters are called with several argument types (13 shapes in rotation: re-bound parameters, overloads, recursion, list parameter / result, global statement, empty body) at top level, in the loop, in nested blocks and inside other functions; every 8th script with 2-4 functions written in REVERSE order of their generation (every call among them is a call of a function defined further down) next to an Ultrasonic, function bodies may call measure_distance(); devices first / alternating with globals / below the functions that drive them; pins as literals or global variables; globals, lists, user functions, if/elif/else, for, while, try, tuple assignment, f-strings, device calls with literal and run-time arguments) filtered by the syntactic guard shapes_of; every accepted one is compiled+linked by g++ (oracle) and its top-level structure is read back and compared with the model's stitch order / declared-before-use verdict; on each of them two more property clauses are evaluated on the real artefacts (every instantiated library class has its own header included above the object; no (name, parameter types) is defined twice - in Program.functions and in the text) and Lang/Headers.v / Lang/FnSelect.v are run on the real device declarations / specialisation tables and compared with the real include list, library objects and Program.functions. "
-                "H: harness/c06_pairs.py - a catalog of ~130 statement shapes (every method of Led, RGBLed, Buzzer, Servo, DCMotor, LCD (parallel with backlight pin and I2C), SerialMonitor, Core, sensors with all-literal and with run-time arguments, optional arguments present / absent; tuple assignments all-new / swap / rotate, list literal / comprehension / append / remove / len / index / setitem, calls, for / while / if / elif / try with names promoted out of them, augmented assignments, in functions the re-assignment of the parameter) put TWICE (second copy shuffled, fresh Python names) into ONE block of each of 13 kinds (setup, loop, function body, if / elif / else arm, for, while, try, except, if inside a function, for inside if, loop body below devices declared at its top): every pair of shapes and every shape with itself share one C++ scope; g++ is the oracle, a failing sequence is reduced by ddmin and the minimal script is the replay (evaluations count the pairs); thorough: 6 more rounds per context with three shuffled copies cut at a random length. "
+                "D: 10 edge scripts + 46 boundary scripts (the two shapes the prototypes repair: a function that measures - result returned / in a condition / two sensors / only the function measures / function and loop measure / called by a function above it / sensor declared at the top of the loop - and forward calls - int result, with an argument from a float caller, bare statement, condition, mutual recursion, chain of three, two callers, forward and backward; every device name bound twice with the same arguments / with other pins, hoistable kinds bound before the loop and again at its top; every combination and declaration order of Servo / parallel LCD / I2C LCD incl. a Servo hoisted from the loop head and two objects per class; every helper shape: parameter re-bound to float called with int and float in both orders, two real overloads, calls through annotated wrappers, one signature twice, never called, called from a function only) + seeded structured scripts (c06_gen.gen_script: device kinds forced in rotation before the loop / hoistable kinds at the top of the loop body; every 4th script with 1-3 instances per device kind in shuffled order, both LCD interfaces / only one of them in rotation, a hoistable kind both before and in the loop; every 4th script with helpers whose un-annotated parameters are called with several argument types (13 shapes in rotation: re-bound parameters, overloads, recursion, list parameter / result, global statement, empty body) at top level, in the loop, in nested blocks and inside other functions; every 8th script with 2-4 functions written in REVERSE order of their generation (every call among them is a call of a function defined further down) next to an Ultrasonic, function bodies may call measure_distance(); devices first / alternating with globals / below the functions that drive them; pins as literals or global variables; globals, lists, user functions, if/elif/else, for, while, try, tuple assignment, f-strings, device calls with literal and run-time arguments) filtered by the syntactic guard shapes_of; every accepted one is compiled+linked by g++ (oracle) and its top-level structure is read back and compared with the model's stitch order / declared-before-use verdict; on each of them two more property clauses are evaluated on the real artefacts (every instantiated library class has its own header included above the object; no (name, parameter types) is defined twice - in Program.functions and in the text) and Lang/Headers.v / Lang/FnSelect.v are run on the real device declarations / specialisation tables and compared with the real include list, library objects and Program.functions. "
+                "H: harness/c06_pairs.py - a catalog of ~130 statement shapes (every method of Led, RGBLed, Buzzer, Servo, DCMotor, LCD (parallel with backlight pin and I2C), SerialMonitor, Core, sensors with all-literal and with run-time arguments, optional arguments present / absent; tuple assignments all-new / swap / rotate, list literal / comprehension / append / remove / len / index (a subscript assignment is rejected by the transpiler since the repair of the silent drops), calls, for / while / if / elif / try with names promoted out of them, augmented assignments, in functions the re-assignment of the parameter) put TWICE (second copy shuffled, fresh Python names) into ONE block of each of 13 kinds (setup, loop, function body, if / elif / else arm, for, while, try, except, if inside a function, for inside if, loop body below devices declared at its top): every pair of shapes and every shape with itself share one C++ scope; g++ is the oracle, a failing sequence is reduced by ddmin and the minimal script is the replay (evaluations count the pairs); thorough: 6 more rounds per context with three shuffled copies cut at a random length. "
                 "I: every compiled script of D and H: each function of the real text is read back into blocks / header declarations / declarations (harness/c06_scope.py), the extracted scope stack decides whether a name is declared twice in one scope (oracle, cross-checked with g++'s 'redeclaration' errors in both directions), and the extracted emitter model run on the real IR (node kinds + the attributes that decide the template: literal vs run-time durations, empty pattern, known melody / LCD / button) must reproduce blocks and declared names of setup, loop and every user function exactly (declaration-free blocks pruned on both sides). "
                 "F: statement-fragment programs (harness/progen.py feature sets + 34 scoping boundary templates: all-new / mixed / all-old tuple assignments at every level, names first bound in branches and loops, for variables re-bound after the loop) through the extracted Lang.Transl + Lang.Scope and through the real transpiler + g++: the theorem's conclusion is re-checked on the extracted model, and a target the model finds invisible must make g++ fail with 'not declared'. "
                 "distinct non-trivial = strings that need escaping + distinct (section-kind multiset, helper set) signatures of compiled scripts",
         "samples": samples[:4],
         "timing_s": timing,
         "distribution": {k: v for k, v in sorted(dist.items(), key=lambda kv: str(kv[0]))},
-        "guard": "strings: none (every string; the device-value oracle of part C leaves out NUL, which a C string cannot carry). scripts: c06_gen.shapes_of(script) is empty - (lcd.animate() inside a function is generated since repair 17b67c1; `**` is rejected by the transpiler since repair c223eb4) no call of a function defined further down unless that function evidently returns an int or nothing, no '**', no 'except <Name>', no '+' of two string literals, no C++ keyword / Arduino core name as a Python identifier, no top-level tuple assignment mixing new and old names, no for variable mentioned after its loop, no for over anything but range(...), no un-annotated parameter re-bound to a string-valued expression, no string / float literal passed to an un-annotated parameter outside an assignment or return value, no function above an RGBLed whose on/off/blink/toggle it calls, no Servo / Buzzer name bound twice with different arguments besides the pin; plus generator invariants: type-correct Python, one type class per variable name, list.append/remove arguments of the element type, a helper with two real overloads has one numeric and one String overload and is called only as the right-hand side of an assignment, a helper whose un-annotated parameter is used as a list is called once in an assignment. Function theorem C06_fn_no_redefinition_partial: all labels in _cpp_type's table. Redeclaration theorem C06_emit_no_redeclaration_partial: the declarations the script itself causes (locals, for variables, catch targets, parameters, button polls) are free of redeclaration (the parser's bookkeeping; checked by g++ and the scope oracle, not proved). Globals theorem: every name always offered with the same initialiser. Scoping theorem: setup() has no top-level local declaration (for loop()), targets of augmented assignments not checked",
+        "guard": "strings: none (every string; the device-value oracle of part C leaves out NUL, which a C string cannot carry). scripts: c06_gen.shapes_of(script) is empty - (lcd.animate() inside a function is generated since repair 17b67c1; `**` is rejected by the transpiler since repair c223eb4) no call of a function defined further down unless that function evidently returns an int or nothing, no '**', no 'except <Name>', no '+' of two string literals, no C++ keyword / Arduino core name as a Python identifier, no top-level tuple assignment mixing new and old names, no for variable mentioned after its loop, no comprehension over anything but range(...) (a for STATEMENT over a list is rejected by the transpiler since the repair of the silent drops and is generated), no un-annotated parameter re-bound to a string-valued expression, no string / float literal passed to an un-annotated parameter outside an assignment or return value, no function above an RGBLed whose on/off/blink/toggle it calls, no Servo / Buzzer name bound twice with different arguments besides the pin; plus generator invariants: type-correct Python, one type class per variable name, list.append/remove arguments of the element type, a helper with two real overloads has one numeric and one String overload and is called only as the right-hand side of an assignment, a helper whose un-annotated parameter is used as a list is called once in an assignment. Function theorem C06_fn_no_redefinition_partial: all labels in _cpp_type's table. Redeclaration theorem C06_emit_no_redeclaration_partial: the declarations the script itself causes (locals, for variables, catch targets, parameters, button polls) are free of redeclaration (the parser's bookkeeping; checked by g++ and the scope oracle, not proved). Globals theorem: every name always offered with the same initialiser. Scoping theorem: setup() has no top-level local declaration (for loop()), targets of augmented assignments not checked",
         "unmodelled": ["the C++ type checker (template deduction in the list helpers, String overloads, implicit conversions): decided by g++ only",
                        "AVR specifics: <cstring> in the len helper, 16-bit int, PROGMEM; the mock is a hosted g++ 12 with the mock core",
                        "universal character names, GNU escapes, numeric escapes > 255, -trigraphs / -std=c++NN modes (the lexer model answers None)",
